@@ -652,18 +652,20 @@ func calibrateOnce(kind string, seq *int) (calib, bool) {
 	defer r.close()
 	m1 := mkMsg(1, 20)
 	full := r.fullMsg(m1)
+	// the byte counts are the logger's own (syncBuffer.nbytes): they do not
+	// depend on whether Flush() reaches this logger
 	r.log(m1)
-	s1 := r.snapshot()
+	_, nb1, _ := r.vl.State()
 	m2 := mkMsg(2, 33)
 	full2 := r.fullMsg(m2)
 	r.log(m2)
-	s2 := r.snapshot()
-	if len(s1) != 1 || len(s2) != 1 {
+	_, nb2, _ := r.vl.State()
+	if s := r.snapshot(); len(s) != 1 { // also collects the goroutine ids
 		panic("calibration: expected one file")
 	}
-	// size2 - size1 = overhead + len(full2)
-	ov := s2[0].Size - s1[0].Size - int64(len(full2))
-	h := s1[0].Size - ov - int64(len(full))
+	// nb2 - nb1 = overhead + len(full2)
+	ov := nb2 - nb1 - int64(len(full2))
+	h := nb1 - ov - int64(len(full))
 	if r.glitch() {
 		return calib{}, false
 	}
@@ -915,6 +917,336 @@ func runHist(rng *rand.Rand, kind string, cal calib, seq *int, gcOnly bool) (his
 	return hc, !r.glitch()
 }
 
+// ---------------------------------------------------------------------------
+// several loggers sharing one directory
+
+type multiOp struct {
+	Op  string // "log", "setmax", "gc", "snap"
+	Lg  int    // logger (= program) index for "log" and "gc"
+	Id  int64
+	Len int64
+	Arg int64
+}
+
+// progView is what is seen of one program at a snapshot: its files, found by
+// scanning the directory and parsing the names (not through listLogFiles),
+// oldest first; and for every file the logger's own listLogFiles returned, the
+// index of the program that file belongs to (-1: none of the known programs).
+type progView struct {
+	Files  []snapFile
+	Listed []int64
+}
+
+type multiPlanted struct {
+	Prog  int
+	Stamp int64
+	Size  int64
+	Ids   []int64
+	Name  string
+}
+
+type multiCase struct {
+	H        int64
+	Max0     int64
+	Progs    []string // program names (file name prefixes); index 0 is the main logger
+	Loggers  int      // programs 0..Loggers-1 have a logger, the rest only planted files
+	Planted  []multiPlanted
+	Ops      []multiOp
+	Snaps    [][]progView
+	Fetch    []int64
+	HasFetch bool
+}
+
+func runMulti(rng *rand.Rand, calMain, calSec calib) (multiCase, bool) {
+	sc := log.ScopeWithoutShowLogs(shim{})
+	defer sc.Close(shim{})
+	oldMax := atomic.LoadInt64(&log.LogFileMaxSize)
+	oldComb := atomic.LoadInt64(&log.LogFilesCombinedMaxSize)
+	defer atomic.StoreInt64(&log.LogFileMaxSize, oldMax)
+	defer atomic.StoreInt64(&log.LogFilesCombinedMaxSize, oldComb)
+
+	dir := log.VerifLogDir()
+	gids := map[int64]bool{}
+	planted := map[string]bool{}
+	// the main logger and one or two secondary loggers; with two, the name of
+	// the first is a prefix of the name of the second, as the main logger's
+	// program name is a prefix of both
+	base := []string{"audit", "a", "spotlight", "x"}[rng.Intn(4)]
+	names := []string{base}
+	if rng.Intn(4) != 0 {
+		names = append(names, base+[]string{"-x", "2", "-" + base, "or"}[rng.Intn(4)])
+	}
+	var rs []*runner
+	rs = append(rs, &runner{kind: "main", vl: log.VerifMainLogger(), dir: dir, planted: planted, gids: gids})
+	for _, n := range names {
+		sec := log.NewSecondaryLogger(context.Background(), nil, n, false /*enableGc*/, false)
+		rs = append(rs, &runner{kind: "secondary", sec: sec, vl: log.VerifSecondaryLogger(sec), dir: dir, planted: planted, gids: gids})
+	}
+	defer func() {
+		for _, r := range rs {
+			r.close()
+		}
+	}()
+	mc := multiCase{H: calMain.h, Loggers: len(rs)}
+	if calSec.h != calMain.h {
+		panic("header sizes of main and secondary loggers differ")
+	}
+	progOf := func(name string) string { return strings.SplitN(name, ".", 2)[0] }
+	for _, r := range rs {
+		mc.Progs = append(mc.Progs, progOf(r.vl.FileName(1000000000)))
+	}
+	if rng.Intn(2) == 0 {
+		// a program nobody logs for here, whose name extends the main logger's
+		mc.Progs = append(mc.Progs, mc.Progs[0]+[]string{"x", "-old", "2"}[rng.Intn(3)])
+	}
+	progIdx := map[string]int{}
+	for i, p := range mc.Progs {
+		if _, dup := progIdx[p]; dup {
+			panic("duplicate program name " + p)
+		}
+		progIdx[p] = i
+	}
+
+	maxChoices := []int64{64, 300, calMain.h + 1, calMain.h + calMain.overhead + 40, calMain.h + 250, 1024, 2048}
+	mc.Max0 = maxChoices[rng.Intn(len(maxChoices))]
+	atomic.StoreInt64(&log.LogFileMaxSize, mc.Max0)
+	curMax := mc.Max0
+
+	// older files of any of the programs
+	plantedID := int64(2000000)
+	stamps := map[int64]bool{}
+	for n := rng.Intn(5); n > 0; n-- {
+		pi := rng.Intn(len(mc.Progs))
+		if len(mc.Progs) > len(rs) && rng.Intn(2) == 0 {
+			pi = len(mc.Progs) - 1
+		}
+		st := int64(1000000000 + rng.Intn(1000000))
+		if stamps[st] {
+			continue
+		}
+		stamps[st] = true
+		pf := multiPlanted{Prog: pi, Stamp: st}
+		var content []byte
+		if rng.Intn(3) == 0 {
+			content = make([]byte, rng.Intn(3000))
+		} else {
+			var es []log.Entry
+			for j := 1 + rng.Intn(3); j > 0; j-- {
+				plantedID++
+				pf.Ids = append(pf.Ids, plantedID)
+				es = append(es, log.Entry{Severity: log.Severity_INFO, Time: st*1e9 + int64(len(es))*1000, Goroutine: 7,
+					File: "old/run.go", Line: 42, Message: mkMsg(plantedID, 8+rng.Intn(200))})
+			}
+			content = formatAll(es)
+		}
+		pf.Size = int64(len(content))
+		parts := strings.Split(rs[0].vl.FileName(st), ".")
+		parts[0] = mc.Progs[pi]
+		pf.Name = strings.Join(parts, ".")
+		if err := ioutil.WriteFile(filepath.Join(dir, pf.Name), content, 0644); err != nil {
+			panic(err)
+		}
+		planted[pf.Name] = true
+		mc.Planted = append(mc.Planted, pf)
+	}
+
+	look := func() []progView {
+		log.Flush()
+		views := make([]progView, len(mc.Progs))
+		infos, err := ioutil.ReadDir(dir)
+		if err != nil {
+			panic(err)
+		}
+		for _, info := range infos {
+			if !info.Mode().IsRegular() {
+				continue
+			}
+			det, err := log.ParseLogFilename(info.Name())
+			if err != nil {
+				panic("unexpected file in the log directory: " + info.Name())
+			}
+			pi, ok := progIdx[det.Program]
+			if !ok {
+				panic("file of an unknown program in the log directory: " + info.Name())
+			}
+			sf := snapFile{Stamp: det.Time / 1e9, Size: info.Size(), Name: info.Name()}
+			b, err := ioutil.ReadFile(filepath.Join(dir, info.Name()))
+			if err != nil {
+				panic(err)
+			}
+			es, k, txt := decodeAll(b)
+			if k != 0 {
+				sf.DecodeErr = txt
+			}
+			for _, e := range es {
+				if !planted[info.Name()] {
+					gids[e.Goroutine] = true
+				}
+				if id, ok := idOf(e.Message); ok {
+					sf.Ids = append(sf.Ids, id)
+				} else {
+					sf.Other++
+				}
+			}
+			views[pi].Files = append(views[pi].Files, sf)
+		}
+		for i := range views {
+			fs := views[i].Files
+			sort.SliceStable(fs, func(a, b int) bool { return fs[a].Stamp < fs[b].Stamp })
+			if i < len(rs) {
+				fis, err := rs[i].vl.ListFiles()
+				if err != nil {
+					panic(err)
+				}
+				for _, fi := range fis {
+					pi, ok := progIdx[fi.Details.Program]
+					if !ok {
+						pi = -1
+					}
+					views[i].Listed = append(views[i].Listed, int64(pi))
+				}
+				sort.Slice(views[i].Listed, func(a, b int) bool { return views[i].Listed[a] < views[i].Listed[b] })
+			} else {
+				for range fs {
+					views[i].Listed = append(views[i].Listed, int64(i))
+				}
+			}
+		}
+		return views
+	}
+	doSnap := func() []progView {
+		v := look()
+		mc.Ops = append(mc.Ops, multiOp{Op: "snap"})
+		mc.Snaps = append(mc.Snaps, v)
+		return v
+	}
+	nextID := int64(1)
+	doLog := func(li int) {
+		r := rs[li]
+		cal := calMain
+		if li > 0 {
+			cal = calSec
+		}
+		open, nb, _ := r.vl.State()
+		if !open {
+			nb = cal.h
+		}
+		room := curMax - nb
+		var want int64
+		switch k := rng.Intn(10); {
+		case k <= 2:
+			want = room + int64(rng.Intn(5)) - 2
+		case k == 3:
+			want = curMax + int64(rng.Intn(40))
+		default:
+			want = cal.overhead + 5 + int64(rng.Intn(80))
+		}
+		id := nextID
+		nextID++
+		minLen := cal.overhead + int64(len(r.fullMsg(mkMsg(id, 0))))
+		if want < minLen {
+			want = minLen
+		}
+		if want > 8000 {
+			want = 8000
+		}
+		msg := mkMsg(id, len(mkMsg(id, 0))+int(want-minLen))
+		length := cal.overhead + int64(len(r.fullMsg(msg)))
+		r.log(msg)
+		mc.Ops = append(mc.Ops, multiOp{Op: "log", Lg: li, Id: id, Len: length})
+	}
+	doGC := func(li int) {
+		v := doSnap()
+		var sums []int64
+		var sum int64
+		fs := v[li].Files
+		for i := len(fs) - 1; i >= 0; i-- {
+			sum += fs[i].Size
+			sums = append(sums, sum)
+		}
+		var b int64
+		switch k := rng.Intn(10); {
+		case k <= 2:
+			b = int64(rng.Intn(2)) // small: everything but the newest goes
+		case k == 3:
+			b = math.MaxInt64
+		case len(sums) > 0:
+			b = sums[rng.Intn(len(sums))] + int64(rng.Intn(3)) - 1
+		default:
+			b = int64(rng.Intn(100))
+		}
+		atomic.StoreInt64(&log.LogFilesCombinedMaxSize, b)
+		rs[li].vl.GCNow()
+		mc.Ops = append(mc.Ops, multiOp{Op: "gc", Lg: li, Arg: b})
+		mc.Snaps = append(mc.Snaps, look())
+	}
+	for n := 6 + rng.Intn(30); n > 0; n-- {
+		switch k := rng.Intn(20); {
+		case k == 0:
+			curMax = maxChoices[rng.Intn(len(maxChoices))]
+			atomic.StoreInt64(&log.LogFileMaxSize, curMax)
+			mc.Ops = append(mc.Ops, multiOp{Op: "setmax", Arg: curMax})
+		case k == 1:
+			doSnap()
+		case k <= 5:
+			doGC(rng.Intn(len(rs)))
+		default:
+			doLog(rng.Intn(len(rs)))
+		}
+	}
+	doGC(0) // the main logger's GC at the end, whatever came before
+	doSnap()
+	es, err := log.FetchEntriesFromFiles(0, math.MaxInt64, 1<<30, nil)
+	if err != nil {
+		panic(err)
+	}
+	mc.HasFetch = true
+	for i := len(es) - 1; i >= 0; i-- {
+		if id, ok := idOf(es[i].Message); ok {
+			mc.Fetch = append(mc.Fetch, id)
+		}
+	}
+	return mc, len(gids) <= 1
+}
+
+func coqMulti(m multiCase) string {
+	var progs, pl, ops, snaps []string
+	for _, p := range m.Progs {
+		progs = append(progs, vh.Str(p))
+	}
+	for _, p := range m.Planted {
+		pl = append(pl, fmt.Sprintf("(%d, %s, %s, %s)", p.Prog, vh.Z(p.Stamp), vh.Z(p.Size), zs(p.Ids)))
+	}
+	for _, o := range m.Ops {
+		switch o.Op {
+		case "log":
+			ops = append(ops, fmt.Sprintf("XLog %d %s %s", o.Lg, vh.Z(o.Id), vh.Z(o.Len)))
+		case "setmax":
+			ops = append(ops, "XSetMax "+vh.Z(o.Arg))
+		case "gc":
+			ops = append(ops, fmt.Sprintf("XGc %d %s", o.Lg, vh.Z(o.Arg)))
+		case "snap":
+			ops = append(ops, "XSnap")
+		}
+	}
+	for _, s := range m.Snaps {
+		var vs []string
+		for _, v := range s {
+			var fs []string
+			for _, f := range v.Files {
+				fs = append(fs, fmt.Sprintf("(%s, %s, %s)", vh.Z(f.Stamp), vh.Z(f.Size), zs(f.Ids)))
+			}
+			vs = append(vs, fmt.Sprintf("(%s, %s)", vh.List(fs), zs(v.Listed)))
+		}
+		snaps = append(snaps, vh.List(vs))
+	}
+	fetch := "None"
+	if m.HasFetch {
+		fetch = "(Some " + zs(m.Fetch) + ")"
+	}
+	return fmt.Sprintf("(mkMulti %s %s %s %s %s %s %s)", vh.Z(m.H), vh.Z(m.Max0), vh.List(progs), vh.List(pl), vh.List(ops), vh.List(snaps), fetch)
+}
+
 func zs(l []int64) string {
 	var it []string
 	for _, x := range l {
@@ -1027,9 +1359,9 @@ func main() {
 	zoneOff := zones[int(uint64(*seed)%uint64(len(zones)))]
 	time.Local = time.FixedZone("VERIF", zoneOff)
 
-	nCodec, nRaw, nProbe, nHist, nGC := 700, 300, 120, 80, 220
+	nCodec, nRaw, nProbe, nHist, nGC, nMulti := 700, 300, 120, 80, 200, 70
 	if *tier == "thorough" {
-		nCodec, nRaw, nProbe, nHist, nGC = 8000, 3000, 600, 800, 2400
+		nCodec, nRaw, nProbe, nHist, nGC, nMulti = 8000, 3000, 600, 800, 2000, 700
 	}
 
 	// ---- codec: well-formed entries and concatenations
@@ -1087,6 +1419,7 @@ func main() {
 
 	// ---- rotation / GC histories on real loggers
 	var hist []histCase
+	var multi []multiCase
 	discarded := 0
 	var calMain, calSec calib
 	histErr := ""
@@ -1096,7 +1429,7 @@ func main() {
 				// the loggers could not be driven at all (e.g. calibration impossible):
 				// the codec cases are still written; the check reports this separately
 				histErr = fmt.Sprint(r)
-				hist = nil
+				hist, multi = nil, nil
 			}
 		}()
 		seq := 0
@@ -1113,6 +1446,19 @@ func main() {
 				h, ok := runHist(rng, kind, cal, &seq, i >= nHist)
 				if ok {
 					hist = append(hist, h)
+					break
+				}
+				discarded++
+				if try > 20 {
+					panic("goroutine id never stable")
+				}
+			}
+		}
+		for i := 0; i < nMulti; i++ {
+			for try := 0; ; try++ {
+				m, ok := runMulti(rng, calMain, calSec)
+				if ok {
+					multi = append(multi, m)
 					break
 				}
 				discarded++
@@ -1151,9 +1497,14 @@ func main() {
 	for _, h := range hist {
 		it = append(it, coqHist(h))
 	}
-	sb.WriteString("Definition hist_cases : list hist_case := " + vh.ListNL(it) + ".\n")
+	sb.WriteString("Definition hist_cases : list hist_case := " + vh.ListNL(it) + ".\n\n")
+	it = nil
+	for _, m := range multi {
+		it = append(it, coqMulti(m))
+	}
+	sb.WriteString("Definition multi_cases : list multi_case := " + vh.ListNL(it) + ".\n")
 	vh.WriteFile(*out, "cases.v", sb.String())
-	vh.WriteJSON(*out, "cases.json", map[string]interface{}{"codec": codec, "raw": raw, "probe": probe, "hist": hist})
+	vh.WriteJSON(*out, "cases.json", map[string]interface{}{"codec": codec, "raw": raw, "probe": probe, "hist": hist, "multi": multi})
 
 	// ---- summary
 	distinct := map[string]bool{}
@@ -1225,9 +1576,31 @@ func main() {
 			histNontrivial++
 		}
 	}
+	multiGcs, multiLogs, multiNontrivial := 0, 0, 0
+	for _, m := range multi {
+		ng, active := 0, map[int]bool{}
+		for _, o := range m.Ops {
+			switch o.Op {
+			case "log":
+				multiLogs++
+				active[o.Lg] = true
+			case "gc":
+				ng++
+			}
+		}
+		multiGcs += ng
+		key := fmt.Sprintf("m%v%v%v%v", m.Progs, m.Ops, m.Planted, m.Max0)
+		if len(active) >= 2 && ng > 0 && !distinct[key] {
+			distinct[key] = true
+			multiNontrivial++
+		}
+	}
 	samples := []interface{}{codec[0], codec[1+rng.Intn(len(codec)-1)], raw[rng.Intn(len(raw))], probe[rng.Intn(len(probe))]}
 	if len(hist) == nHist+nGC {
 		samples = append(samples, hist[rng.Intn(nHist)], hist[nHist+rng.Intn(nGC)])
+	}
+	if len(multi) > 0 {
+		samples = append(samples, multi[rng.Intn(len(multi))])
 	}
 	vh.WriteJSON(*out, "summary.json", map[string]interface{}{
 		"codec": len(codec), "codec_entries": entries, "codec_classes": classCount,
@@ -1235,8 +1608,9 @@ func main() {
 		"probe": len(probe), "probe_kinds": probeKinds, "probe_roundtrip_failures": probeFail,
 		"local_zone_offset_s": zoneOff,
 		"hist":                len(hist), "hist_error": histErr, "hist_discarded_goid_glitch": discarded, "hist_log_ops": logs, "hist_gc_ops": gcs, "hist_files_at_end": rotations,
-		"calibration":         map[string]interface{}{"main": []int64{calMain.overhead, calMain.h}, "secondary": []int64{calSec.overhead, calSec.h}},
-		"distinct_nontrivial": nontrivial + histNontrivial,
+		"calibration": map[string]interface{}{"main": []int64{calMain.overhead, calMain.h}, "secondary": []int64{calSec.overhead, calSec.h}},
+		"multi":       len(multi), "multi_log_ops": multiLogs, "multi_gc_ops": multiGcs,
+		"distinct_nontrivial": nontrivial + histNontrivial + multiNontrivial,
 		"samples":             samples,
 	})
 }
